@@ -29,7 +29,7 @@ class C35(Check):
     components = {"real": ["ioflo.aio.proto.stacking.UdpStack / GramStack.serviceTxPkts", "ioflo.aio.udp.udping.SocketUdpNb"],
                   "stub": ["socket module (UDP)", "packets (pre-packed bytes)"]}
     assumptions = ["a sendto that raises did not send the datagram"]
-    required_probes = ["fail-with-other-dest-queued", "fail-with-same-dest-behind", "all-fail-pass", "queued-between-passes", "drained-by-once-passes"]
+    required_probes = ["fail-with-other-dest-queued", "fail-with-same-dest-behind", "all-fail-pass", "queued-between-passes", "drained-by-once-passes", "default-destination", "error-reported-once"]
     quick_runs = 30000
     thorough_runs = 1500000
     shrink_fields = ["passes", "queue"]
@@ -50,7 +50,17 @@ class C35(Check):
         for _ in range(f.randint(0, 5)):
             fail = [[d, f.choice(TRANSIENT)] for d in range(nd) if f.random() < 0.4]
             passes.append({"fail": fail, "once": f.random() < 0.2})
-        return {"queue": queue, "passes": passes, "late": late, "drain_once": f.random() < 0.3}
+        plan = {"queue": queue, "passes": passes, "late": late, "drain_once": f.random() < 0.3}
+        # some packets for destination 0 queued without an address: the stack's zeroth remote (destination 0) is the default
+        # (side generator: all other plans stay as they were)
+        import random as _r
+        sg = _r.Random(hashlib.sha256(repr((g.getstate(), f.getstate())).encode()).hexdigest())
+        # passes in which a destination's error is reported once only (the send after it would go through): a stack that tried
+        # that destination again within the pass would overtake the packet that failed
+        plan["first"] = [i for i in range(len(passes)) if sg.random() < 0.3]
+        if sg.random() < 0.3:
+            plan["default"] = [i for i, (d, w) in enumerate(queue + late) if d == 0 and sg.random() < 0.5]
+        return plan
 
     def execute(self, plan):
         from ioflo.aio.proto import stacking
@@ -61,27 +71,40 @@ class C35(Check):
             serial = [0]
             queued = []          # (dest index, payload) in queue order
 
-            def enqueue(d):
+            default = set(plan.get("default") or [])
+            if "default" in plan:
+                from ioflo.aio.proto import devicing
+                st.addRemote(devicing.IpRemoteDevice(stack=st, ha=DESTS[0]))
+
+            def enqueue(d, ix=None):
                 payload = b"P%03d>%d" % (serial[0], d)
                 serial[0] += 1
-                st.transmit(FakePkt(payload), DESTS[d])
+                if ix in default:
+                    out.probe("default-destination")
+                    st.transmit(FakePkt(payload))
+                else:
+                    st.transmit(FakePkt(payload), DESTS[d])
                 queued.append((d, payload))
 
-            for d, when in plan["queue"]:
-                enqueue(d)
-            late = list(plan["late"])
+            for i, (d, when) in enumerate(plan["queue"]):
+                enqueue(d, i)
+            late = [list(x) + [len(plan["queue"]) + i] for i, x in enumerate(plan["late"])]
             passes = list(plan["passes"])
             npass = 0
             while True:
-                for d, when in [x for x in late if x[1] == npass]:
-                    enqueue(d)
+                for d, when, ix in [x for x in late if x[1] == npass]:
+                    enqueue(d, ix)
                     out.probe("queued-between-passes")
                 late = [x for x in late if x[1] != npass]
                 spec = passes[npass] if npass < len(passes) else {"fail": [], "once": bool(plan.get("drain_once"))}
                 if npass >= len(passes) and spec["once"]:
                     out.probe("drained-by-once-passes")
                 net.dest_faults = dict((DESTS[d], e) for d, e in spec["fail"])
-                pending_before = [(DESTS.index(ha), bytes(p.packed)) for p, ha in st.txPkts]
+                net.dest_faults_once = {}
+                if npass in (plan.get("first") or []) and spec["fail"]:
+                    net.dest_faults_once, net.dest_faults = net.dest_faults, {}
+                    out.probe("error-reported-once")
+                pending_before = [(DESTS.index(ha) if ha is not None else 0, bytes(p.packed)) for p, ha in st.txPkts]
                 failing = set(d for d, e in spec["fail"])
                 if failing:
                     if any(d not in failing for d, p in pending_before) and any(d in failing for d, p in pending_before):
